@@ -179,8 +179,15 @@ pub fn productions() -> Vec<Prod> {
         E "content_e"    "[‹B›]";
         E "content_e_sp" "[ ‹B› ]";
         E "content_e_ml" "[\n  ‹B›\n]";
+        E "content_2l"   "[‹M›\n‹M›]";
+        E "content_par"  "[‹M›\n\n‹M›]";
         E "paren"        "(‹E›)";
         E "paren_stmt"   "(‹S›)";
+        // statement-like bodies where the printer adds optional braces / parentheses
+        E "clos_addassign" "x => v += ‹E›";
+        E "clos_assign"  "x => v = ‹E›";
+        E "clos_return"  "x => return ‹E›";
+        E "clos_let"     "x => let w = ‹E›";
         E "paren2"       "((‹E›))";
         E "arr0"         "()";
         E "arr1"         "(‹E›,)";
@@ -307,6 +314,7 @@ pub fn productions() -> Vec<Prod> {
         P "pat_sink0"    "(..r)";
         P "pat_dots"     "(‹P›, ..)";
         P "pat_under"    "_";
+        P "pat_named_under" "(k: _, ‹P›)";
         // ---------------- arguments
         A "named"        "k: ‹E›";
         A "spread"       "..‹E›";
@@ -754,6 +762,11 @@ pub const FORMS: &[Form] = &[
     Form { name: "crlf", text: "\r\n" },
     Form { name: "cr", text: "\r" },
     Form { name: "ls", text: "\u{2028}" },
+    Form { name: "ff", text: "\u{c}" },
+    Form { name: "vt", text: "\u{b}" },
+    Form { name: "nel", text: "\u{85}" },
+    Form { name: "ps", text: "\u{2029}" },
+    Form { name: "sp_ff_sp", text: " \u{c} " },
     Form { name: "bc", text: "/*c1*/" },
     Form { name: "bc_sp", text: " /*c1*/ " },
     Form { name: "lc", text: "//c1\n" },
@@ -784,7 +797,9 @@ pub fn forms(names: &[&str]) -> Vec<Form> {
     names.iter().map(|n| form(n)).collect()
 }
 
-pub const FORMS_WS: &[&str] = &["none", "sp", "sp2", "tab", "nl", "nl2", "nl4", "nl_sp", "crlf", "cr", "ls"];
+pub const FORMS_WS: &[&str] = &["none", "sp", "sp2", "tab", "nl", "nl2", "nl4", "nl_sp", "crlf", "cr", "ls", "ff", "vt", "nel", "ps", "sp_ff_sp"];
+/// every line terminator of Typst that is not LF, alone in a gap
+pub const FORMS_NEWLINES: &[&str] = &["crlf", "cr", "ls", "ff", "vt", "nel", "ps", "sp_ff_sp"];
 pub const FORMS_COMMENT: &[&str] = &[
     "bc", "bc_sp", "lc", "lc_sp", "nl_lc", "bc_ml", "bc_star", "lc_lc", "bc_bc", "nl_bc_nl", "off_bc", "off_lc", "bc_ws_line", "bc_blank", "bc_tab", "bc_uni",
 ];
@@ -792,6 +807,7 @@ pub const FORMS_DIRECTIVE: &[&str] = &["off_bc", "off_lc", "off_tight", "off_rea
 pub const FORMS_ALL: &[&str] = &[
     "none", "sp", "sp2", "tab", "nl", "nl2", "nl4", "nl_sp", "crlf", "cr", "ls", "bc", "bc_sp", "lc", "lc_sp", "nl_lc",
     "bc_ml", "bc_star", "lc_lc", "bc_bc", "nl_bc_nl", "off_bc", "off_lc", "nl_sp12", "bc_ws_line", "bc_blank", "bc_tab", "bc_uni",
+    "ff", "vt", "nel", "ps", "sp_ff_sp",
 ];
 pub const FORMS_QUICK: &[&str] = &["nl", "lc", "bc", "none", "nl2", "sp", "nl_lc", "bc_ml", "lc_sp", "bc_sp", "nl4", "cr"];
 
